@@ -76,17 +76,21 @@ pub struct Scen {
     /// the peer of the subject stops reading after this many bytes and the subject's outbound pipe is tiny
     pub backpressure: bool,
     pub heartbeat: bool,
+    /// the server has answered the opens before the fault: odd streams refused (SYNACK with text), even ones accepted
+    pub verdicts: bool,
 }
 
 const SCENARIOS: &[Scen] = &[
-    Scen { name: "before_first_write", streams: 0, chunks: 0, chunk: 0, api: 0, readers: false, backpressure: false, heartbeat: false },
-    Scen { name: "opens_pending", streams: 2, chunks: 0, chunk: 0, api: 0, readers: true, backpressure: false, heartbeat: false },
-    Scen { name: "streams_idle", streams: 2, chunks: 1, chunk: 30, api: 0, readers: true, backpressure: false, heartbeat: false },
-    Scen { name: "mid_transfer_direct", streams: 2, chunks: 4, chunk: 700, api: 0, readers: true, backpressure: false, heartbeat: false },
-    Scen { name: "mid_transfer_queued", streams: 3, chunks: 4, chunk: 300, api: 1, readers: true, backpressure: false, heartbeat: false },
-    Scen { name: "concurrent_writers", streams: 4, chunks: 3, chunk: 100, api: 0, readers: false, backpressure: false, heartbeat: true },
-    Scen { name: "writer_backpressured", streams: 1, chunks: 6, chunk: 400, api: 0, readers: true, backpressure: true, heartbeat: false },
-    Scen { name: "queued_writer_backpressured", streams: 2, chunks: 6, chunk: 400, api: 1, readers: true, backpressure: true, heartbeat: false },
+    Scen { name: "before_first_write", streams: 0, chunks: 0, chunk: 0, api: 0, readers: false, backpressure: false, heartbeat: false, verdicts: false },
+    Scen { name: "opens_pending", streams: 2, chunks: 0, chunk: 0, api: 0, readers: true, backpressure: false, heartbeat: false, verdicts: false },
+    Scen { name: "streams_idle", streams: 2, chunks: 1, chunk: 30, api: 0, readers: true, backpressure: false, heartbeat: false, verdicts: false },
+    Scen { name: "mid_transfer_direct", streams: 2, chunks: 4, chunk: 700, api: 0, readers: true, backpressure: false, heartbeat: false, verdicts: false },
+    Scen { name: "mid_transfer_queued", streams: 3, chunks: 4, chunk: 300, api: 1, readers: true, backpressure: false, heartbeat: false, verdicts: false },
+    Scen { name: "concurrent_writers", streams: 4, chunks: 3, chunk: 100, api: 0, readers: false, backpressure: false, heartbeat: true, verdicts: false },
+    Scen { name: "opens_answered_then_idle", streams: 3, chunks: 0, chunk: 0, api: 0, readers: true, backpressure: false, heartbeat: false, verdicts: true },
+    Scen { name: "opens_answered_mid_transfer", streams: 3, chunks: 3, chunk: 200, api: 1, readers: true, backpressure: false, heartbeat: false, verdicts: true },
+    Scen { name: "writer_backpressured", streams: 1, chunks: 6, chunk: 400, api: 0, readers: true, backpressure: true, heartbeat: false, verdicts: false },
+    Scen { name: "queued_writer_backpressured", streams: 2, chunks: 6, chunk: 400, api: 1, readers: true, backpressure: true, heartbeat: false, verdicts: false },
 ];
 
 #[derive(Clone, Debug)]
@@ -221,6 +225,14 @@ async fn run_async(fc: Option<FaultCase>, scen: Scen, clean: bool) -> Observed {
             Ok(Some(s)) => server_streams.push(s),
             _ => break,
         }
+    }
+    if scen.verdicts {
+        // the server answers: a refusal for odd stream ids, success for even ones (the readers stay parked)
+        for st in &client_streams {
+            let f = if st.id() % 2 == 1 { Frame::with_data(Command::SynAck, st.id(), Bytes::from_static(b"refused by scenario")) } else { Frame::control(Command::SynAck, st.id()) };
+            let _ = tokio::time::timeout(Duration::from_secs(D), pair.server.write_control_frame(f)).await;
+        }
+        tokio::time::sleep(Duration::from_millis(10)).await;
     }
     let (subj_streams, peer_streams) = match side {
         Side::Client => (client_streams.clone(), server_streams.clone()),
@@ -398,7 +410,7 @@ async fn run_async(fc: Option<FaultCase>, scen: Scen, clean: bool) -> Observed {
                 };
                 obs.problems.push((sym.into(), format!("{name} is still pending {} virtual seconds after the cause", D + hb_allow)));
             }
-            Some(r) if name.starts_with("pending_open") && r == "resolved_ok" => {
+            Some(r) if name.starts_with("pending_open") && r == "resolved_ok" && !scen.verdicts => {
                 obs.problems.push(("pending_open_resolved_ok".into(), format!("{name} completed with success although no SYNACK was ever sent")));
             }
             _ => {}
